@@ -52,6 +52,16 @@ CLAIMS = {
         note="dtype kinds are outside the claim (pandas C promotion rules cannot be encoded); internal lowered nodes are not collections and are not checked.",
         design="§4 C07",
     ),
+    "C10": dict(
+        category="translation_validation", engine="P",
+        technique="symbolic execution of the real optimised plans of a query at default knobs and at every knob value; z3 decides result equality up to row order",
+        text="Over the grid split_every x split_out x max_branch x broadcast x npartitions hints x shuffle npartitions/ignore_index, for reductions, groupby aggregations, "
+             "unique/drop_duplicates/value_counts/nunique, shuffles, set_index(divisions) and merges of every how, with 1..9 single-row partitions (so tree vs shuffle reduction, "
+             "single-stage vs staged shuffle and broadcast vs hash join are all produced - asserted by the run), the real plan at each knob value is proved to compute the result of the default plan.",
+        note="Trusted: symdf leaf models, uninterpreted hash. Outside: shuffle_method='disk' (partd I/O), p2p, upsample/quantile sampling, multi-key groupby split_out tuning. "
+             "Nested group reductions bounded to <=5 (quick) / 7 (thorough) partitions.",
+        design="§4 C10",
+    ),
     "C11": dict(
         category="translation_validation", engine="P+K",
         technique="symbolic execution of the real optimised plans of selected vs unselected collections; z3 decides per-partition equality; selection failures replayed",
@@ -79,6 +89,14 @@ CLAIMS = {
              "is proved equal, partition by partition and in row order, to optimize(fuse=False) for all table contents; npartitions, divisions and meta are compared concretely.",
         note="Trusted: symdf leaf models. Bounds: <=5 rows/input, <=3 partitions, DAG shapes listed in families/f14.py.",
         design="§4 C14",
+    ),
+    "C17": dict(
+        category="translation_validation", engine="P",
+        technique="symbolic execution of cut vs uncut real plans (real postpersist rebuild over symbolically computed partitions, real to_delayed/from_delayed and legacy round trips); z3 decides result equality",
+        text="For every head node kind (frame, series, index, scalar, unknown divisions, partition-filtered, fused, merged, grouped) x continuation x cut kind, the query continued on "
+             "the re-imported collection is proved to compute the result of the uncut query for all table contents; schema and divisions are compared concretely.",
+        note="Trusted: symdf leaf models; the scheduler run inside persist() is replaced by the symbolic executor; distributed outside. Bounds: <=5 rows, <=3 partitions.",
+        design="§4 C17",
     ),
     "C19": dict(
         category="model_checking", engine="P+K",
